@@ -29,8 +29,9 @@ CONTRACTS = [
 
 
 def gen_module(rnd, name):
-    fill = ['x = 1', 'import os', 'def helper():\n    return 2', '"""doc"""']
-    pre = rnd.sample(fill, rnd.randint(0, 2))
+    # statements that are no declaration, among them calls whose callee is not a dotted name and calls of other functions
+    fill = ['x = 1', 'import os', 'def helper():\n    return 2', '"""doc"""', '(lambda: 0)()', '"a b".split()[0].strip()', '[len][0]("abc")', 'len("abc")', 'str.upper("a")']
+    pre = rnd.sample(fill, rnd.randint(0, 3))
     kind = rnd.choice(['none', 'decl', 'decl', 'decl', 'decl', 'alias', 'nested', 'two'])
     behaviour = rnd.choice(['clean', 'clean', 'print', 'raise', 'socket'])
     cs = [rnd.choice(CONTRACTS if rnd.random() < .35 else CONTRACTS[:6]) for _ in range(rnd.randint(1, 3))]
